@@ -966,6 +966,12 @@ static size_t ZDICT_addEntropyTablesFromBuffer_advanced(
         MEM_writeLE32((char*)dictBuffer+4, dictID);
     }
 
+    /* the header ends with the start values of the repeat offsets : a dictionary whose content
+     * is shorter than the largest of them is refused by ZSTD_createCDict() and ZSTD_createDDict() */
+    {   size_t const keptContentSize = MIN(dictBufferCapacity - hSize, dictContentSize);
+        if (keptContentSize < (size_t)ZDICT_maxRep(repStartValue)) return ERROR(dictionaryCreation_failed);
+    }
+
     if (hSize + dictContentSize < dictBufferCapacity)
         memmove((char*)dictBuffer + hSize, (char*)dictBuffer + dictBufferCapacity - dictContentSize, dictContentSize);
     return MIN(dictBufferCapacity, hSize+dictContentSize);
